@@ -197,6 +197,8 @@ def t_ite(c, a, b):
 def t_unary(name):
     def f(x):
         I = _imp()
+        if name in ("sqrt", "log") and isinstance(x, T):
+            I.log_partial(name, x)
         if name == "sqrt":
             if isinstance(x, (int, Q)) and not isinstance(x, bool):
                 r = _exact_root(Q(x), 2)
@@ -253,11 +255,15 @@ def sym_einsum(interp, subs, *ops):
         letters = "".join(ins.split(","))
         out = "".join(sorted(c for c in set(letters) if letters.count(c) == 1))
     ins = ins.split(",")
-    if "..." in subs:
-        raise I.Unsupported("einsum with ellipsis")
     if len(ins) != len(ops):
         raise I.PyRaise(I.mk_exc("ValueError", "einsum: operand count"))
     ops = [to_array(o) for o in ops]
+    if "..." in subs:
+        # expand the ellipsis to explicit (upper-case) letters, right-aligned as numpy does
+        nell = max(o.ndim - len(s_.replace("...", "")) for s_, o in zip(ins, ops) if "..." in s_)
+        ell = "ABCDEFGH"[:nell]
+        ins = [s_.replace("...", ell[nell - (o.ndim - len(s_.replace("...", ""))):]) if "..." in s_ else s_ for s_, o in zip(ins, ops)]
+        out = out.replace("...", ell) if "->" in subs else ell + out.replace("...", "")
     dims = {}
     for s, o in zip(ins, ops):
         if len(s) != o.ndim:
